@@ -116,6 +116,18 @@ def check_panel(case):
         fails.append(fail('external force vector is not the virtual work of the point forces against the reported displacements', sig=None,
                           case=case, amplitude=k, got=float(fext[k]) if k >= 0 else None, expected=float(work[k]) if k >= 0 else None))
     execs = size + 1
+    # same-object history: the force values are changed in place (same number of forces) and the vector is requested again
+    if forces:
+        for lst in (p.forces, p.forces_inc):
+            for f in lst:
+                f[2], f[3], f[4] = -2.5 * f[2], -2.5 * f[3], -2.5 * f[4]
+        fext2 = np.asarray(p.calc_fext(inc=case['inc'], silent=True), dtype=float)
+        execs += 1
+        if np.any(np.abs(fext2 + 2.5 * fext) > 1e-11 * 2.5 * scale + 1e-300):
+            fails.append(fail('force vector of a re-used object does not follow force values changed after an earlier evaluation', sig=None, case=case))
+        for lst in (p.forces, p.forces_inc):
+            for f in lst:
+                f[2], f[3], f[4] = f[2] / -2.5, f[3] / -2.5, f[4] / -2.5
     # linear static solution (load factor 1 by definition of the linear analysis)
     restrained = case['fbase'] in ('SSSS', 'CFFF')      # K must be positive definite on the active amplitudes
     if forces and case['inc'] == 1.0 and restrained:
